@@ -1,7 +1,7 @@
 (* Comparison of what a real mrp run was observed to do with Sem.eval_program:
    observations are (call path, phase, what the stage process read) and the
    final top-level outs.  Used by the C01/C03 correspondence (cases.v). *)
-From Martian Require Import Lib.Bytes Json.Json Mro.Sem Mro.StageSpec.
+From Martian Require Import Lib.Bytes Json.Json Json.Enc Mro.Sem Mro.StageSpec.
 
 (* The latitude the property grants: a disabled or empty mapped call may
    appear as null, an empty collection or a collection of nulls.  Both sides
